@@ -154,9 +154,30 @@ def ir_ops_supported(lifter, instr):
         if e.is_op() and not op_supported(e.op):
             ok[0] = False
         return e
+    nxt = instr.offset + instr.l
+    loc_db = lifter.loc_db
+
+    def leaves(e):
+        if e.is_cond():
+            return leaves(e.src1) + leaves(e.src2)
+        return [e]
     for blk in ircfg.blocks.values():
         for ab in blk:
             for dst, src in ab.items():
+                if dst == lifter.IRDst:
+                    # only fall-through (or instruction-internal) destinations: no hidden control flow
+                    for leaf in leaves(src):
+                        if leaf.is_loc():
+                            off = loc_db.get_location_offset(leaf.loc_key)
+                            if off is not None and off != nxt:
+                                return False
+                        elif leaf.is_int():
+                            if int(leaf) != nxt:
+                                return False
+                        else:
+                            return False
+                elif dst == lifter.pc:
+                    return False
                 src.visit(cb)
                 if dst.is_mem():
                     dst.ptr.visit(cb)
